@@ -55,7 +55,11 @@ func init() {
 			n := 2 + c.Free(c.Pick(1, 2), "decoders")
 			var ds []int
 			for i := 0; i < n; i++ {
-				ds = append(ds, c.Free(len(c15bPool), "stream"))
+				pool := len(c15bPool)
+				if n == 3 {
+					pool = 3 // triples: the three honest streams only (keeps the thorough tier in budget)
+				}
+				ds = append(ds, c.Free(pool, "stream"))
 			}
 			type live struct {
 				st   c15bStream
@@ -76,7 +80,12 @@ func init() {
 				lv = append(lv, &live{st: st, r: r})
 				desc += st.name + " | "
 			}
-			depth := c.Pick(6, 8)
+			// sizes: pairs have 7 options per step (7^6 x 16 stream pairs ~ 0.9 M histories quick,
+			// 7^7 x 16 ~ 13 M thorough), triples 10 options (10^5 x 27 ~ 3 M thorough)
+			depth := c.Pick(6, 7)
+			if n == 3 {
+				depth = 5
+			}
 			bufs := []int{1, 3, 64}
 			for step := 0; step < depth; step++ {
 				// 0 = stop; otherwise (decoder, buffer size)
@@ -120,7 +129,7 @@ func init() {
 				for _, x := range lv {
 					key = append(key, byte(len(x.got)), 0xff)
 				}
-				c.State([]byte(desc[:len(ds)*2]), key)
+				c.State([]byte(fmt.Sprint(ds)), key)
 			}
 			c.Eval()
 			c.Sample(desc)
